@@ -177,7 +177,7 @@ def reflect_cfg(env, cfg):
 
 def g_cfg(cfg, ccfg):
     def gcol(c):
-        return '(mkcol %s %s)' % (gbool(c['pk']), gbool(c['excl']))
+        return '(mkcol %s %s %s)' % (gbool(c['pk']), gbool(c['excl']), gbool(c.get('here', True)))
 
     def grel(r):
         return '(mkrel %s %s %s)' % ({'MANYTOONE': 'M2O', 'ONETOMANY': 'O2M', 'MANYTOMANY': 'M2M'}[r['dir']],
